@@ -7,7 +7,7 @@ HERE = os.path.dirname(os.path.abspath(__file__))
 TECH = "bounded model checking of the compiled Rust code: Kani 0.68 / CBMC 6.11 (CaDiCaL) over #[kani::proof] harnesses with kani::any() inputs"
 TECH_MIR = TECH + "; plus path-exploring symbolic execution of the rustc MIR of the real functions with z3 (mirsym)"
 MIR_ONLY = "path-exploring symbolic execution of the rustc MIR of the real functions (cargo +nightly rustc -Zunpretty=mir) with z3 deciding branch feasibility and the per-path obligations (mirsym)"
-MIRSYM = ("C01", "C11", "C04", "C19", "C18", "C02", "C08", "C09", "C05", "C12", "C20", "C07")
+MIRSYM = ("C01", "C11", "C04", "C19", "C18", "C02", "C08", "C09", "C05", "C12", "C20", "C07", "C16")
 MIR_ONLY_PROPS = ("C07", "C08", "C09")
 
 CLAIMS = {
@@ -56,8 +56,8 @@ CLAIMS = {
  "C15": ("-atime/-ctime/-mtime = floor(age/86400), -amin/-cmin/-mmin = floor(age/60) on each one's own timestamp for all (s,ns) pairs below 2^40 s with age >= 0; -newer strict at ns resolution with F's record per follow mode; -newerXY = entry.X > F.Y for the nine a/c/m combinations.",
          "-daystart (chrono Local), -newerXt / date parsing, the -newerXY option-name parser (regex crate), birth time are outside; F dangling is outside c15_newer_strict.",
          "4 C15"),
- "C16": ("Record directives %s %n %i %U %G %d (decimal, values < 10^5), %m (all twelve bits), %y (agrees with -type under P/H/L), %Y (agrees with -xtype where the follow mode does not resolve the entry), escape sequences \\a..\\\\, \\0, \\NNN, \\c.",
-         "Width/justification (fmt::write exhausts memory), %p %f %h %H %P (std::path on symbolic bytes), %l, time directives (chrono), %u %g (FFI), the directive-letter table of parse_format_specifier are outside.",
+ "C16": ("Kani: record directives %s %n %i %U %G %d (decimal, values < 10^5), %m (all twelve bits), %y (agrees with -type under P/H/L), %Y (agrees with -xtype where the follow mode does not resolve the entry), escape sequences \\a..\\\\, \\0, \\NNN, \\c. mirsym: the real format parser (FormatString::parse with parse_format_specifier, parse_format_width, parse_escape_sequence) on format strings of 1..2 (thorough 3) items over literals incl. multi-byte text, all escapes, %%, and the path directives %p %f %h %H %P %d each plain, with a width and with '-' + width; then Printf::print + format_directive + get_starting_point on entries of a tree with symbolic names, for four spellings of the starting point: the bytes written equal the reference rendering - every directive's value, padded with blanks on the left (right with '-') to the minimum width, never truncated, everything else verbatim, nothing appended; %H '/' %P recompose %p.",
+         "Known finding F-C16-H: %H of entries below a starting point spelled with a trailing slash lacks the slash. What write! emits is produced by fmt_model.py (port of core::fmt::write incl. Formatter::pad over the template bytes in the MIR); std::path operations on symbolic names are structural models (components, parent, file_name, ancestors, strip_prefix). %l, time directives (chrono), %u %g (FFI), %F %S %b %k %D, -fprintf's file handling, width on the record directives (Kani side) are outside; %Y under -L is outside (design decision recorded in DESIGN.md).",
          "4 C16"),
  "C18": ("The operand scan of parse_args for every pair of tokens from a 12-word vocabulary (follow flags, --, operands incl. '-', './a/', expression starters): operands in order, spelled as given, default '.'; do_find walks <=3 starting points in order, isolates failures, stops after quit.",
          "mirsym: the real parse_args + do_find + expression parser on every command line of <= 3 tokens over a 15-word vocabulary (options, --, operands incl. '-', './b/', '..', expression starters) with a symbolic per-starting-point status and quit: operands, order, spelling, default '.', follow mode, status accumulation, stop after quit. Kani: build_top_level_matcher and process_dir are scripts in these harnesses; -files0-from (file/stdin reads) is not covered; missing starting points are walkdir's error path (abstracted as an error step).",
